@@ -94,6 +94,8 @@ def signature(func, variadic=True, markup=True, safe=False):
     if not identified:
         p_args = ()
         p_kwds = {}
+    elif not inspect.isroutine(func) and not inspect.isclass(func) and hasattr(func, '__call__'):
+        func = func.__call__ # a partial of a callable instance
 
     FULL_ARGS = hasattr(inspect, 'getfullargspec')
     try:
@@ -198,6 +200,8 @@ def validate(func, /, *args, **kwds):
             p_kwds = func.keywords or {} # dict of default kwd values
             p_named,p_defaults = signature(func.func, markup=False, variadic=False)
             func = func.func
+            if not inspect.isroutine(func) and not inspect.isclass(func) and hasattr(func, '__call__'):
+                func = func.__call__ # a partial of a callable instance
             p_required = set(p_named) - set(p_defaults)
             identified = True
         except AttributeError:
